@@ -127,18 +127,30 @@ fn check_auth(rep: &mut Report, case: &Value, out: &AuthOut, x: &[u8], y: &[u8],
 
 fn history<S: CredentialStore<PasskeyItem = Passkey> + Sync + Send>(rep: &mut Report, seed: u64, idx: u64, kind: StoreKind, auth: &mut Authenticator<S, RecUv>, snapshot: &dyn Fn(&Authenticator<S, RecUv>) -> Vec<CredSnap>) {
     let mut rng = Rng::derive(seed, "c17", idx);
-    let n_reg = if kind == StoreKind::Single { 1 } else { rng.range(1, 3) };
+    let n_reg = if kind == StoreKind::Single { rng.range(1, 2) } else { rng.range(1, 4) };
     let mut regs: Vec<([u8; 32], Vec<u8>, [u8; 32], [u8; 32])> = Vec::new();
     for r in 0..n_reg {
         rep.eval();
         let challenge = if rng.chance(1, 5) { [0u8; 32] } else { rng.arr32() };
         let app = if rng.chance(1, 5) { [0xFFu8; 32] } else { rng.arr32() };
         let hl = *rng.pick(&[0usize, 1, 16, 32, 64, 127, 128, 200, 255]);
-        let handle = rng.bytes(hl);
+        let mut handle = rng.bytes(hl);
+        let mut app = app;
+        if kind != StoreKind::Rec && !regs.is_empty() && rng.chance(1, 3) {
+            // register the same application / key handle again
+            let (a, h, _, _) = regs[rng.below(regs.len())].clone();
+            app = a;
+            handle = h;
+        }
+        let hl = handle.len();
         // the shipped in-memory store is keyed by credential id alone (C05's recorded finding): a key
         // handle reused under another application would overwrite there, which is not this property's topic
-        let handle_reused = kind != StoreKind::Rec && regs.iter().any(|(_, h, _, _)| *h == handle);
-        if handle_reused || regs.iter().any(|(a, h, _, _)| *a == app && *h == handle) {
+        let handle_reused = kind != StoreKind::Rec && regs.iter().any(|(a, h, _, _)| *h == handle && *a != app);
+        // the same (application, key handle) registered again: the shipped stores replace the record
+        // (HashMap insert / Option replace), so the new key must be the stored one; for the reference
+        // store the outcome of saving a duplicate is not defined by the contract, so it is not generated
+        let same_pair = regs.iter().any(|(a, h, _, _)| *a == app && *h == handle);
+        if handle_reused || (same_pair && kind == StoreKind::Rec) {
             // the same (application, key handle) registered twice: which credential answers is not
             // settled by the statement, so such histories are not generated
             continue;
@@ -153,6 +165,11 @@ fn history<S: CredentialStore<PasskeyItem = Passkey> + Sync + Send>(rep: &mut Re
                 rep.count("registrations");
                 rep.nontrivial(fnv(format!("reg|{hl}|{kind:?}|{r}").as_bytes()));
                 rep.sample_class(&format!("register/{kind:?}"), json!({"case": case, "encoded_len": out.encoded.len(), "signature_len": out.sig.len()}));
+                regs.retain(|(a, h, _, _)| !(*a == app && *h == handle));
+                if kind == StoreKind::Single {
+                    // the single-slot store keeps one credential by design
+                    regs.clear();
+                }
                 regs.push((app, handle, out.x, out.y));
             }
         }
@@ -165,7 +182,7 @@ fn history<S: CredentialStore<PasskeyItem = Passkey> + Sync + Send>(rep: &mut Re
         let (app, handle, x, y) = regs[rng.below(regs.len())].clone();
         let challenge = rng.arr32();
         let counter = *rng.pick(&[0u32, 1, 0x8000_0000, u32::MAX, 258]);
-        let pres = if rng.bool() { Flags::UP } else { Flags::empty() };
+        let pres = *rng.pick(&[Flags::UP, Flags::empty(), Flags::UV, Flags::UP | Flags::UV, Flags::BE | Flags::BS, Flags::UP | Flags::BE]);
         let param = *rng.pick(&[0x03u8, 0x07, 0x08]);
         let case = json!({"index": idx, "store": format!("{kind:?}"), "step": format!("authenticate#{s}"), "handle_len": handle.len(), "counter": counter, "presence": u8::from(pres), "control": param});
         match catch(|| do_auth(auth, param, challenge, app, &handle, counter, pres)) {
